@@ -403,4 +403,105 @@ theorem respects_unprotectRtcp (S : Suite) (pkt : Bytes) :
   refine ⟨unprotectRtcp_setIdx_fst S c i pkt, ?_⟩
   simp only [unprotectRtcp_state_forget, setIdx_forget]
 
+/-! ### acceptance in the two families of profiles -/
+
+/-- where the tag starts in an SRTP body -/
+abbrev splitAt (c : Ctx) (body : Bytes) : Nat := body.length - c.profile.tagLen
+
+theorem openRtp_hmac (S : Suite) (c : Ctx) (hb body : Bytes) (seq roc : Nat) (hg : c.profile ≠ .gcm) :
+    c.openRtp S hb body seq roc =
+      if body.drop (splitAt c body) ≠ rtpTag S c hb (body.take (splitAt c body)) roc then .error .authFailed
+      else .ok (cmBody S c seq roc (body.take (splitAt c body))) := by
+  unfold Ctx.openRtp; simp [hg]
+
+theorem openRtp_aead (S : Suite) (c : Ctx) (hb body : Bytes) (seq roc : Nat) (hg : c.profile = .gcm) :
+    c.openRtp S hb body seq roc =
+      match S.aeadOpen c.rtp.ck (gcmNonce c.rtp.salt c.ssrc seq roc) hb body with
+      | none => .error .authFailed
+      | some pt => .ok pt := by
+  unfold Ctx.openRtp; rw [if_pos hg]; rfl
+
+theorem estimate_lt (c : Ctx) (seq : Nat) (h : c.roc < 4294967296) : c.estimate seq < 4294967296 := by
+  unfold Ctx.estimate
+  cases hl : c.last with
+  | none => simpa using h
+  | some l => rw [estimateRoc_some]; split
+              · omega
+              · split <;> omega
+
+/-! ### whole histories on one session -/
+
+/-- everything a session can be asked to do -/
+inductive Op
+  | rtpIn (now : Nat) (raw : Bytes)
+  | rtcpIn (now : Nat) (pkt : Bytes)
+  | rtpOut (now : Nat) (p : Pkt)
+  | rtcpOut (now : Nat) (pkt : Bytes)
+
+/-- everything a caller can observe -/
+inductive Out
+  | rtp (r : Except (ParseErr ⊕ Err) Pkt)
+  | rtcp (r : Except Err Bytes)
+  | wire (r : Except Err Bytes)
+
+def step (S : Suite) (s : Sess) : Op → Out × Sess
+  | .rtpIn now raw => let r := s.receiveRtp S now raw; (.rtp r.1, r.2)
+  | .rtcpIn now pkt => let r := s.unprotectRtcp S now pkt; (.rtcp r.1, r.2)
+  | .rtpOut now p => let r := s.protectRtp S now p; (.wire r.1, r.2)
+  | .rtcpOut now pkt => let r := s.protectRtcp S now pkt; (.wire r.1, r.2)
+
+/-- outputs of a whole history -/
+def run (S : Suite) : Sess → List Op → List Out
+  | _, [] => []
+  | s, o :: os => (step S s o).1 :: run S (step S s o).2 os
+
+def Out.isReject : Out → Bool
+  | .rtp (.error _) => true
+  | .rtcp (.error _) => true
+  | _ => false
+
+theorem step_obsEq (S : Suite) {s1 s2 : Sess} (h : Sess.obsEq s1 s2) (o : Op) :
+    (step S s1 o).1 = (step S s2 o).1 ∧ Sess.obsEq (step S s1 o).2 (step S s2 o).2 := by
+  cases o with
+  | rtpIn now raw =>
+    simp only [step, Sess.receiveRtp]
+    cases hp : parseHdr raw with
+    | error e => exact ⟨rfl, h⟩
+    | ok v =>
+      obtain ⟨hd, p, body⟩ := v
+      simp only
+      have := withRx_obsEq S h now hd.ssrc _ (respects_unprotectRtp S hd p body)
+      unfold Sess.unprotectRtp
+      revert this
+      cases (s1.withRx S now hd.ssrc fun c => c.unprotectRtp S hd p body) with
+      | mk r1 t1 =>
+        cases (s2.withRx S now hd.ssrc fun c => c.unprotectRtp S hd p body) with
+        | mk r2 t2 =>
+          simp only
+          rintro ⟨rfl, ht⟩
+          cases r1 <;> exact ⟨rfl, ht⟩
+  | rtcpIn now pkt =>
+    simp only [step, Sess.unprotectRtcp]
+    split
+    · exact ⟨rfl, h⟩
+    · have := withRx_obsEq S h now (ssrcOfRtcp pkt) _ (respects_unprotectRtcp S pkt)
+      exact ⟨by rw [this.1], this.2⟩
+  | rtpOut now p =>
+    simp only [step, Sess.protectRtp, Sess.withTx, h.tx, h.profile, h.txMk, h.txMs]
+    split
+    · exact ⟨rfl, ⟨rfl, rfl, rfl, h.rxMk, h.rxMs, rfl, h.rx⟩⟩
+    · split
+      · exact ⟨rfl, ⟨rfl, rfl, rfl, h.rxMk, h.rxMs, rfl, h.rx⟩⟩
+      · exact ⟨rfl, ⟨rfl, rfl, rfl, h.rxMk, h.rxMs, rfl, h.rx⟩⟩
+  | rtcpOut now pkt =>
+    simp only [step, Sess.protectRtcp]
+    split
+    · exact ⟨rfl, h⟩
+    · simp only [Sess.withTx, h.tx, h.profile, h.txMk, h.txMs]
+      split
+      · exact ⟨rfl, ⟨rfl, rfl, rfl, h.rxMk, h.rxMs, rfl, h.rx⟩⟩
+      · split
+        · exact ⟨rfl, ⟨rfl, rfl, rfl, h.rxMk, h.rxMs, rfl, h.rx⟩⟩
+        · exact ⟨rfl, ⟨rfl, rfl, rfl, h.rxMk, h.rxMs, rfl, h.rx⟩⟩
+
 end RtcModel.Srtp
